@@ -198,10 +198,31 @@ func c10Gen(rt *rapid.T) wProg {
 			p.Ops = append(p.Ops, wOp{K: "set", S: s, T: gPick(rt, []string{"g0", "me"}, "dt"), A: "public", H: map[string]any{"fn": fmt.Sprintf("n%d", i)}})
 		case x < 84:
 			p.Ops = append(p.Ops, wOp{K: "del", S: s, T: topicFor(s), A: "msg", F: gPct(rt, 50), R: [][2]int{{1, 0}}})
+		case x >= 84 && x < 87:
+			// an account is deleted (by its user, or by the root user) while its P2P topics may be in memory
+			victim := gInt(rt, 1, 2, "victim")
+			by := 0
+			if !p.Cfg.Root || gPct(rt, 50) {
+				if vs, ok := first[victim]; ok {
+					by = vs
+				}
+			}
+			for k, u := range p.Sess {
+				if u != victim && gPct(rt, 60) {
+					p.Ops = append(p.Ops, wOp{K: "sub", S: k, T: "me", B: "sub"})
+				}
+				if u != victim && u <= 2 && gPct(rt, 50) {
+					p.Ops = append(p.Ops, wOp{K: "sub", S: k, T: fmt.Sprintf("p%d", victim)})
+				}
+			}
+			p.Ops = append(p.Ops, wOp{K: "del", S: by, A: "user", U: victim, F: gPct(rt, 50)})
 		case x < 95:
 			p.Ops = append(p.Ops, wOp{K: "tick", N: gPick(rt, []int{600, 1500, 4500, 6000, 12000}, "ms")})
-		case x < 97:
+		case x < 96:
 			p.Ops = append(p.Ops, wOp{K: "get", S: s, T: "me", A: "sub"})
+		case x < 97:
+			// the subscriber list of the group, by an attached member (who may have muted the group)
+			p.Ops = append(p.Ops, wOp{K: "sub", S: s, T: "g0"}, wOp{K: "get", S: s, T: "g0", A: "sub"})
 		case x < 98:
 			p.Ops = append(p.Ops, wOp{K: "del", S: 0, T: "g0", A: "topic"})
 		default:
@@ -211,6 +232,7 @@ func c10Gen(rt *rapid.T) wProg {
 	return p
 }
 
+// (counter of judged online flags in group subscriber lists is c10Obs.onlineFlags)
 type c10Told struct {
 	online bool
 	how    string
@@ -226,7 +248,9 @@ type c10Obs struct {
 	tainted map[string]bool // routes where a {set} was served for a non-attached session (C08 matter)
 	known   func(*kit.Viol) bool
 
-	presSeen, judgedPairs, onTold, offTold, bkgSeen, muted int
+	presSeen, judgedPairs, onTold, offTold, bkgSeen, muted, onlineFlags int
+	accountDeleted map[int]bool // users whose {del what=user} was acknowledged
+	goneExpected   map[[2]int]bool // (survivor, deleted user): their P2P topic was loaded when the account was deleted
 }
 
 func (o *c10Obs) Before(w *wWorld, op *wOp) {
@@ -277,6 +301,52 @@ func (o *c10Obs) cacheDisagrees(w *wWorld, live map[string]*wTopicSnap, st *mem.
 func (o *c10Obs) After(w *wWorld, st *wStep) *kit.Viol {
 	post := mem.A.Snapshot()
 	postLive := w.liveTopics()
+	// (the reply to {del what=user} may not reach a session which deletes its own account - it is
+	// terminated by that very request: the store tells whether the account went)
+	if st.Op.K == "del" && st.Op.A == "user" && !st.Skipped && st.Op.U >= 0 && st.Op.U < len(w.users) && userState(o.pre, w.users[st.Op.U].uid) == types.StateOK &&
+		userState(post, w.users[st.Op.U].uid) != types.StateOK {
+		if o.accountDeleted == nil {
+			o.accountDeleted = map[int]bool{}
+		}
+		o.accountDeleted[st.Op.U] = true
+		// the P2P topics of that account which were in memory: their other participants are told 'gone'
+		// (for a topic which is not loaded nobody is told anything: the statement speaks of partners, and
+		// after the deletion there is no partnership left - not judged)
+		for name, lt := range o.preLive {
+			if u1, u2, err := types.ParseP2P(name); err == nil && lt.Status&(topicStatusPaused|topicStatusMarkedDeleted) == 0 && len(lt.PerUser) == 2 {
+				for _, pr := range [][2]types.Uid{{u1, u2}, {u2, u1}} {
+					if pr[0] == w.users[st.Op.U].uid {
+						if o.goneExpected == nil {
+							o.goneExpected = map[[2]int]bool{}
+						}
+						o.goneExpected[[2]int{w.userIdx(pr[1]), st.Op.U}] = true
+						// ... each on every session which sits on 'me', naming the deleted account (not
+						// the recipient) as the topic which is gone
+						surv := w.userIdx(pr[1])
+						if _, live, _ := c10Row(o.pre, w, surv, w.users[st.Op.U].uid.UserId()); surv >= 0 && live && !o.tainted[name] {
+							for sess, ss := range w.sess {
+								if ss == nil || ss.user != surv || ss.isClosed() {
+									continue
+								}
+								if _, onMe := o.preAtt[sess][w.users[surv].uid.UserId()]; !onMe {
+									continue
+								}
+								got := false
+								for _, f := range st.Frames[sess] {
+									if f.Pres != nil && f.Pres.Topic == "me" && f.Pres.What == "gone" && f.Pres.Src == w.users[st.Op.U].uid.UserId() {
+										got = true
+									}
+								}
+								if !got {
+									return kit.V("p2p-gone-notice-missing", "account of user %d was deleted while the P2P topic %s was in memory; session %d of the other participant (user %d), attached to 'me', was not told {pres what=gone src=%s}: it received %s", st.Op.U, name, sess, surv, w.users[st.Op.U].uid.UserId(), wFramesStr(st.Frames[sess]))
+								}
+							}
+						}
+					}
+				}
+			}
+		}
+	}
 	// a {set} by a session which is not attached is applied to the store behind the loaded topic's back
 	if st.Op.K == "set" && !st.Skipped && st.Route != "" {
 		if _, attached := o.preAtt[st.Sess][st.Route]; !attached {
@@ -365,6 +435,37 @@ func (o *c10Obs) After(w *wWorld, st *wStep) *kit.Viol {
 				if !(live && mode.IsPresencer() && mode.IsReader()) && !(live2 && mode2.IsPresencer() && mode2.IsReader()) &&
 					!o.cacheDisagrees(w, o.preLive, o.pre, u, f.Info.Src) {
 					return kit.V("info-on-me-to-unentitled", "{info %s src=%s} on 'me' reached session %d of user %d whose mode there is %v/%v (live %v/%v): needs P and R", f.Info.What, f.Info.Src, sess, u, mode, mode2, live, live2)
+				}
+			case f.Meta != nil && strings.HasPrefix(f.Meta.Topic, "grp") && sess == st.Sess && st.Op.K == "get" && !st.Skipped && st.Op.Obo == 0 && f.Meta.Id == st.ReqID && len(f.Meta.Sub) > 0:
+				// the subscriber list of a group, asked for by an attached member: who is online is presence
+				// information - shown to a requester whose effective mode includes P, and then truthfully
+				// (the member has attached sessions), and to nobody else
+				route := f.Meta.Topic
+				lt := o.preLive[route]
+				if _, attached := o.att.att[sess][route]; !attached || lt == nil || o.tainted[route] {
+					break
+				}
+				rmode, rlive, _ := c10Row(o.pre, w, u, route)
+				if !rlive || o.cacheDisagrees(w, o.preLive, o.pre, u, route) {
+					break
+				}
+				for _, ms := range f.Meta.Sub {
+					m := w.userIdx(types.ParseUserId(ms.User))
+					if m < 0 || ms.DeletedAt != nil {
+						continue
+					}
+					pud, known := lt.PerUser[w.users[m].uid]
+					if !known || pud.deleted || pud.isChan {
+						continue
+					}
+					truth := pud.online > 0
+					switch {
+					case !rmode.IsPresencer() && ms.Online:
+						return kit.V("online-flag-shown-without-P", "{meta sub} of %s told user %d (effective mode %v, no P) that user %d is online", route, u, rmode, m)
+					case rmode.IsPresencer() && ms.Online != truth:
+						return kit.V("online-flag-wrong", "{meta sub} of %s told user %d (mode %v) that user %d is online=%v; the member has %d attached sessions", route, u, rmode, m, ms.Online, pud.online)
+					}
+					o.onlineFlags++
 				}
 			case f.Meta != nil && f.Meta.Topic == "me" && onMePost:
 				for _, ms := range f.Meta.Sub {
@@ -540,6 +641,20 @@ func (o *c10Obs) Final(w *wWorld) *kit.Viol {
 				continue
 			}
 			src := w.users[b].uid.UserId()
+			if bs := userState(st, w.users[b].uid); (bs == types.StateDeleted || bs == types.StateUndefined) && o.accountDeleted[b] && !o.accountDeleted[a] && o.goneExpected[[2]int{a, b}] {
+				// b's account was deleted: the P2P topic with b is gone for a, and a was told so
+				if me != nil && me.Loaded {
+					if psd, ok := me.PerSubs[src]; ok && psd.enabled && psd.online {
+						return kit.V("contact-of-deleted-account-still-listed", "settled: 'me' of user %d still holds user %d, whose account was deleted, as a contact (online=%v): the surviving participant was never told that the P2P topic is gone", a, b, psd.online)
+					}
+				}
+				for _, sess := range obsSessions {
+					if t, ok := o.told[sess][src]; ok && t.online {
+						return kit.V("deleted-account-last-told-online", "settled: session %d of user %d was last told (%s) that user %d is online; that account was deleted and the session was never told 'gone'", sess, a, t.how, b)
+					}
+				}
+				continue
+			}
 			ma, la, _ := c10Row(st, w, a, src)
 			mb, lb, _ := c10Row(st, w, b, w.users[a].uid.UserId())
 			if !la || !lb || o.cacheDisagrees(w, live, st, a, src) {
